@@ -300,6 +300,10 @@ func registerIntrinsics(e *Engine) {
 		}
 		return nil
 	}
+	r[vfPkg+".stdinPortion"] = func(e *Engine, fr *frame, args []Value, site ssa.CallInstruction) Value {
+		e.hostState["readPortion"] = asInt(args[0])
+		return nil
+	}
 	// CPUs: what runtime.GOMAXPROCS(0) / runtime.NumCPU() report
 	r[vfPkg+".CPUs"] = func(e *Engine, fr *frame, args []Value, site ssa.CallInstruction) Value {
 		e.hostState["cpus"] = asInt(args[0])
@@ -594,6 +598,36 @@ func registerIntrinsics(e *Engine) {
 	}
 	r["strings.Replace"] = func(e *Engine, fr *frame, args []Value, site ssa.CallInstruction) Value {
 		return strings.Replace(mustStr(e, args[0], "Replace"), mustStr(e, args[1], "Replace"), mustStr(e, args[2], "Replace"), asInt(args[3]))
+	}
+	// strings.Replacer: the pairs are kept; Replace runs natively on concrete text and through
+	// the Go model on symbolic text
+	r["strings.NewReplacer"] = func(e *Engine, fr *frame, args []Value, site ssa.CallInstruction) Value {
+		var pairs []string
+		for _, a := range args[0].(sliceV).a {
+			pairs = append(pairs, mustStr(e, a, "NewReplacer"))
+		}
+		if len(pairs)%2 == 1 {
+			e.goPanic("strings.NewReplacer: odd argument count")
+		}
+		cell := new(Value)
+		*cell = &hostObj{tag: "strings.Replacer", v: pairs}
+		return cell
+	}
+	r["(*strings.Replacer).Replace"] = func(e *Engine, fr *frame, args []Value, site ssa.CallInstruction) Value {
+		p, _ := args[0].(*Value)
+		if p == nil {
+			e.nilDeref()
+		}
+		pairs := (*p).(*hostObj).v.([]string)
+		if s, ok := argStr(args[1]); ok {
+			return strings.NewReplacer(pairs...).Replace(s)
+		}
+		for i := 0; i < len(pairs); i += 2 {
+			if pairs[i] == "" {
+				e.abort(abortEngine, "strings.Replacer with an empty old string on symbolic text")
+			}
+		}
+		return e.callModel("ReplacerReplace", args[1], mkStrSlice(pairs))
 	}
 	r["strings.Count"] = func(e *Engine, fr *frame, args []Value, site ssa.CallInstruction) Value {
 		return int64(strings.Count(mustStr(e, args[0], "Count"), mustStr(e, args[1], "Count")))
